@@ -8,6 +8,7 @@ overrides).  Used by tools/refactor_fuzz.py (all properties) and by the thorough
   T5 whole module re-emitted by ast.unparse (layout, quotes, comments gone)
   T6 drop else after a body that always leaves;  T7 the inverse (what follows becomes the else)
   T8 first call argument extracted into a local:  f(g(x))  ->  _a0 = g(x); f(_a0)
+  T9 two adjacent independent call-free assignments swapped;  T10 `else: pass` added to every if without else
 """
 from __future__ import annotations
 
@@ -205,7 +206,44 @@ def t8_extract_arg(fn):
     return done
 
 
-KINDS = {'T1': t1_rename, 'T2': t2_invert, 'T3': t3_name_return, 'T4': t4_split_and, 'T6': t6_drop_else, 'T7': t7_add_else,
+def _names(node, ctx_types):
+    return {n.id for n in ast.walk(node) if isinstance(n, ast.Name) and isinstance(n.ctx, ctx_types)}
+
+
+def _simple_assign(st):
+    return isinstance(st, ast.Assign) and len(st.targets) == 1 and isinstance(st.targets[0], ast.Name) \
+        and not any(isinstance(x, (ast.Call, ast.Subscript, ast.Attribute, ast.Await, ast.Yield)) for x in ast.walk(st.value))
+
+
+def t9_swap_assigns(fn):
+    """two adjacent assignments of call-free expressions to different plain names, neither using the other's target"""
+    done = False
+    for b in _blocks(fn):
+        i = 0
+        while i + 1 < len(b):
+            a, c = b[i], b[i + 1]
+            if _simple_assign(a) and _simple_assign(c):
+                ta, tc = a.targets[0].id, c.targets[0].id
+                if ta != tc and ta not in _names(c.value, ast.Load) and tc not in _names(a.value, ast.Load):
+                    b[i], b[i + 1] = c, a
+                    done = True
+                    i += 2
+                    continue
+            i += 1
+    return done
+
+
+def t10_else_pass(fn):
+    """if c: S   ->   if c: S else: pass"""
+    done = False
+    for n in own_nodes(fn):
+        if isinstance(n, ast.If) and not n.orelse:
+            n.orelse = [ast.Pass()]
+            done = True
+    return done
+
+
+KINDS = {'T9': t9_swap_assigns, 'T10': t10_else_pass, 'T1': t1_rename, 'T2': t2_invert, 'T3': t3_name_return, 'T4': t4_split_and, 'T6': t6_drop_else, 'T7': t7_add_else,
          'T8': t8_extract_arg}
 
 
